@@ -112,4 +112,136 @@ theorem substring_ascii (s : List Char) (a : Int) (more : List Val) (e : Option 
   have e2 : (((max A B : Nat) : Int) - ((min A B : Nat) : Int)).toNat = max A B - min A B := by omega
   rw [e1, e2, List.drop_take, List.map_take, List.map_drop]
 
+/-! ### the position-based spec of replace / split against the scanning loops -/
+
+open Spec.JsStr (replaceScan pieces)
+
+theorem replaceGo_skip (old new : List Char) : ∀ (l : List Char) (k : Nat),
+    replaceGo old new k l = replaceGo old new 0 (l.drop k) := by
+  intro l
+  induction l with
+  | nil => intro k; cases k <;> simp [replaceGo]
+  | cons c t ih =>
+    intro k
+    cases k with
+    | zero => simp
+    | succ k => simp only [replaceGo, List.drop_succ_cons]; exact ih k
+
+theorem replaceScan_eq (old new : List Char) (hold : old ≠ []) : ∀ (f : Nat) (l : List Char), l.length ≤ f →
+    replaceScan old new f l = replaceGo old new 0 l := by
+  intro f
+  induction f with
+  | zero => intro l h; have : l = [] := List.length_eq_zero_iff.mp (by omega); subst this; simp [replaceScan, replaceGo]
+  | succ f ih =>
+    intro l h
+    cases l with
+    | nil => simp [replaceScan, replaceGo]
+    | cons c t =>
+      have hlen : 1 ≤ old.length := by
+        cases old with
+        | nil => exact absurd rfl hold
+        | cons _ _ => simp
+      simp only [replaceScan, replaceGo]
+      split
+      · rw [replaceGo_skip old new t (old.length - 1)]
+        have hd : List.drop old.length (c :: t) = List.drop (old.length - 1) t := by
+          obtain ⟨n, hn⟩ : ∃ n, old.length = n + 1 := ⟨old.length - 1, by omega⟩
+          rw [hn]; simp
+        rw [hd, ih _ (by simp at h ⊢; omega)]
+      · rw [ih t (by simp at h; omega)]
+
+theorem spec_replace_eq (s old new : List Char) : Spec.JsStr.replace s old new = replaceAll s old new := by
+  unfold Spec.JsStr.replace replaceAll
+  by_cases h : old.isEmpty = true
+  · simp [h]
+  · have hne : old ≠ [] := by intro hh; subst hh; simp at h
+    simp only [h]
+    exact replaceScan_eq old new hne s.length s (Nat.le_refl _)
+
+theorem splitGo_skip (sep : List Char) : ∀ (l cur : List Char) (k : Nat),
+    splitGo sep k cur l = splitGo sep 0 cur (l.drop k) := by
+  intro l
+  induction l with
+  | nil => intro cur k; cases k <;> simp [splitGo]
+  | cons c t ih =>
+    intro cur k
+    cases k with
+    | zero => simp
+    | succ k => simp only [splitGo, List.drop_succ_cons]; exact ih cur k
+
+theorem indexFrom_shift (pat : List Char) : ∀ (l : List Char) (i k : Nat),
+    indexFrom pat l (i + k) = (indexFrom pat l i).map (· + k) := by
+  intro l
+  induction l with
+  | nil => intro i k; simp only [indexFrom]; split <;> simp
+  | cons c t ih =>
+    intro i k
+    simp only [indexFrom]
+    split
+    · simp
+    · have : i + k + 1 = (i + 1) + k := by omega
+      rw [this, ih]
+
+theorem splitGo_index (sep : List Char) (hsep : sep ≠ []) : ∀ (l cur : List Char),
+    splitGo sep 0 cur l =
+      match indexFrom sep l 0 with
+      | none => [cur.reverse ++ l]
+      | some i => (cur.reverse ++ l.take i) :: splitGo sep 0 [] (l.drop (i + sep.length)) := by
+  have hlen : ∃ n, sep.length = n + 1 := by
+    cases sep with
+    | nil => exact absurd rfl hsep
+    | cons _ r => exact ⟨r.length, by simp⟩
+  have hemp : sep.isEmpty = false := by cases sep <;> simp_all
+  intro l
+  induction l with
+  | nil => intro cur; simp [splitGo, indexFrom, hemp]
+  | cons c t ih =>
+    intro cur
+    simp only [splitGo, indexFrom]
+    by_cases hp : sep.isPrefixOf (c :: t) = true
+    · obtain ⟨n, hn⟩ := hlen
+      simp only [hp, ↓reduceIte, List.take_zero, List.append_nil, Nat.zero_add]
+      rw [splitGo_skip, hn]
+      simp
+    · simp only [hp, Bool.false_eq_true, ↓reduceIte]
+      have h1 : indexFrom sep t (0 + 1) = (indexFrom sep t 0).map (· + 1) := indexFrom_shift sep t 0 1
+      simp only [Nat.zero_add] at h1
+      rw [ih (c :: cur), h1]
+      cases indexFrom sep t 0 with
+      | none => simp
+      | some i =>
+        have : i + 1 + sep.length = (i + sep.length) + 1 := by omega
+        simp [this]
+
+theorem pieces_eq (sep : List Char) (hsep : sep ≠ []) : ∀ (f : Nat) (l : List Char), l.length ≤ f →
+    pieces sep f l = splitGo sep 0 [] l := by
+  have hlen : 1 ≤ sep.length := by
+    cases sep with
+    | nil => exact absurd rfl hsep
+    | cons _ r => simp
+  intro f
+  induction f with
+  | zero =>
+    intro l h
+    have : l = [] := List.length_eq_zero_iff.mp (by omega)
+    subst this; simp [pieces, splitGo]
+  | succ f ih =>
+    intro l h
+    rw [splitGo_index sep hsep l []]
+    simp only [pieces]
+    cases indexFrom sep l 0 with
+    | none => simp
+    | some i =>
+      simp only [List.reverse_nil, List.nil_append]
+      rw [ih _ (by simp; omega)]
+
+theorem spec_split_eq (s sep : List Char) : Spec.JsStr.split s (some sep) = Model.Text.split s sep := by
+  unfold Spec.JsStr.split Model.Text.split
+  simp only []
+  by_cases h : sep.isEmpty = true
+  · simp [h]
+  · have hne : sep ≠ [] := by intro hh; subst hh; simp at h
+    simp only [h]
+    exact pieces_eq sep hne s.length s (Nat.le_refl _)
+
 end Proofs.MethStr
